@@ -96,6 +96,20 @@ T('pkgL_t_filter_loop_builds_new_list', ['C20'],
 T('pkgL_t_routes_comprehension', ['C20'],
   (FL, _ROUTES, "    routes = [(pattern, get_flaw_info, 'flaw_tmpl') for pattern in ('/', '/<_ignored*>')]\n"
                 "    routes.insert(1, ('/clastic_assets/', StaticApplication(_ASSET_PATH)))\n"))
+T('pkgL_t_routes_picked_from_pages', ['C20'],
+  (FL, _ROUTES, "    pages = [(pattern, get_flaw_info, 'flaw_tmpl') for pattern in ('/', '/<_ignored*>')]\n"
+                "    routes = [pages[0], ('/clastic_assets/', StaticApplication(_ASSET_PATH)), pages[-1]]\n"))
+T('pkgL_t_sort_by_slice_assignment', ['C20'],
+  (FL, "        monitored_files.sort(key=lambda x: len(x))\n", "        monitored_files[:] = sorted(monitored_files, key=len)\n"))
+T('pkgL_t_render_function_made_explicitly', ['C20'],
+  (FL, _ROUTES, "    render_page = arf('flaw_tmpl')\n    routes = [('/', get_flaw_info, render_page),\n"
+                "              ('/clastic_assets/', StaticApplication(_ASSET_PATH)),\n              ('/<_ignored*>', get_flaw_info, render_page)]\n"))
+T('pkgL_t_public_builder_functions', ['C20'],
+  (FL, "    arf = AshesRenderFactory()\n    arf.register_source('flaw_tmpl', _FLAW_TEMPLATE)\n" + _ROUTES + "\n    app = Application(routes, resources, render_factory=arf)\n    return app\n",
+       "    return build_app(resources)\n\n\ndef build_routes():\n    page = ('flaw_tmpl', get_flaw_info)\n    return [('/', page[1], page[0]),\n"
+       "            ('/clastic_assets/', StaticApplication(_ASSET_PATH)),\n            ('/<_ignored*>', page[1], page[0])]\n\n\n"
+       "def build_app(resources):\n    arf = AshesRenderFactory()\n    arf.register_source('flaw_tmpl', _FLAW_TEMPLATE)\n"
+       "    return Application(build_routes(), resources, render_factory=arf)\n"))
 T('pkgL_t_render_factory_public_helper', ['C20'],
   (FL, "    arf = AshesRenderFactory()\n    arf.register_source('flaw_tmpl', _FLAW_TEMPLATE)\n", "    arf = make_render_factory()\n"),
   (FL, "def get_flaw_info(tb_str,", "def make_render_factory():\n    factory = AshesRenderFactory()\n    factory.register_source('flaw_tmpl', _FLAW_TEMPLATE)\n"
